@@ -118,7 +118,9 @@ private:
   };
 
   // TODO - make this configurable via policy.
-  static constexpr unsigned step_size = 11;
+  // pop_idx and push_idx advance by step_size so that consecutive entries lie on different cache lines;
+  // idx % entries_per_node only visits every entry if step_size and entries_per_node are coprime.
+  static constexpr unsigned step_size = (entries_per_node % 11 == 0) ? 1 : 11;
   static constexpr unsigned max_idx = step_size * entries_per_node;
 
   struct node : reclaimer::template enable_concurrent_ptr<node> {
